@@ -324,6 +324,10 @@ def map_diag(model, d, fname):
         cand = [s['line_start'] for s in clause]
     elif res['kind'] in ('invariant', 'assertion'):
         cand = [s['line_start'] for s in prim]
+    elif res['kind'] == 'precondition' and prim and model.line_meta.get(prim[0]['line_start'], {}).get('kind') == 'hint' \
+            and model.line_meta[prim[0]['line_start']].get('label') not in (None, 'hint'):
+        # a lemma call inside a labelled proof step whose premise does not hold: that step is the failed obligation
+        cand = [prim[0]['line_start']]
     for ln in cand:
         # a multi-line clause: walk back to the closest labelled line of the same fn (assertions: same line only,
         # unless they are part of a labelled multi-line proof block)
